@@ -82,6 +82,33 @@ def even_num_y_is_rejected_twin(half: int, num_x: int, symmetry: bool) -> bool:
     return even_num_y_is_rejected(half, num_x, symmetry)
 
 
+_CRM_TYPES = ("CRM", "CRM:jig", "CRM:alpha_2.75", "CRM:alpha_3.50", "CRM:jig_wind_tunnel", "uCRM_based")
+
+
+def even_num_y_is_rejected_crm(half: int, num_x: int, symmetry: bool, kind: int) -> bool:
+    """
+    pre: 1 <= half <= 1000 and 2 <= num_x <= 50 and 0 <= kind < 6
+    post: _ == True
+    """
+    try:
+        with warnings.catch_warnings():
+            warnings.simplefilter("ignore")
+            generate_mesh({"num_y": 2 * half, "num_x": num_x, "wing_type": _CRM_TYPES[kind], "symmetry": symmetry})
+    except ValueError:
+        return True
+    except NameError:  # "uCRM_based" is not a wing_type generate_mesh knows: rejected as an unknown type, loudly as well
+        return True
+    return False
+
+
+def even_num_y_is_rejected_crm_twin(half: int, num_x: int, symmetry: bool, kind: int) -> bool:
+    """
+    pre: 1 <= half <= 1000 and 2 <= num_x <= 50 and 0 <= kind < 6
+    post: _ == False
+    """
+    return even_num_y_is_rejected_crm(half, num_x, symmetry, kind)
+
+
 def unknown_wing_type_is_rejected(wing_type: str) -> bool:
     """
     pre: len(wing_type) <= 5 and wing_type != "rect" and "CRM" not in wing_type
